@@ -38,6 +38,8 @@ def wsel(max_n=6, allow_2d=True):
         opts.append(
             st.fixed_dictionaries({"t": st.just("slice"), "r0": st.integers(0, 7), "h": st.integers(1, 3), "c0": st.integers(0, 7), "w": st.integers(1, 3)})
         )
+        # full-height blocks of (not necessarily adjacent) columns, like plate.wells[:, [1, 3, 5]] or [:, ::2]
+        opts.append(st.fixed_dictionaries({"t": st.just("fullcols"), "c": st.lists(st.integers(0, 23), min_size=1, max_size=3, unique=True)}))
         opts.append(
             st.tuples(st.integers(1, 2), st.integers(1, 3)).flatmap(
                 lambda hw: st.fixed_dictionaries({"t": st.just("arr2"), "w": st.lists(st.lists(cell, min_size=hw[1], max_size=hw[1]), min_size=hw[0], max_size=hw[0])})
@@ -73,6 +75,8 @@ def vsel(vs, max_n=6):
         st.fixed_dictionaries({"t": st.just("scalar"), "v": vs}),
         st.fixed_dictionaries({"t": st.just("list"), "v": st.lists(vs, min_size=1, max_size=max_n)}),
         st.fixed_dictionaries({"t": st.just("grid"), "v": st.lists(vs, min_size=1, max_size=max_n)}),
+        # "col2d": the volumes of a flat well list given as an n x 1 column array
+        st.fixed_dictionaries({"t": st.just("col2d"), "v": st.lists(vs, min_size=1, max_size=max_n)}),
     )
 
 
@@ -92,6 +96,15 @@ def wsel_ids(spec, sel):
         ids = [cell_id(spec, c) for c in sel["w"]]
         return {"t": t, "ids": ids}, list(ids)
     R, C = id_rows(spec), spec["cols"]
+    if t == "fullcols":
+        cols_ = []
+        for c in sel["c"]:
+            if c % C not in cols_:
+                cols_.append(c % C)
+        rows_ = min(R, 8)
+        grid = [[wid(r, c) for c in cols_] for r in range(R if R <= 8 else rows_)]
+        flat = [grid[r][c] for c in range(len(grid[0])) for r in range(len(grid))]
+        return {"t": "arr2", "ids": grid}, flat
     if t == "slice":
         r0 = sel["r0"] % R
         c0 = sel["c0"] % C
@@ -141,12 +154,16 @@ def vsel_layout(vsel_, csel, n):
     flat = [v[i % len(v)] for i in range(n)]
     if t == "grid" and csel["t"] == "arr2":
         return "arr2", flat  # volumes given as a 2-D array of the wells' shape
+    if t == "col2d" and csel["t"] in ("list", "arr1") and n >= 1:
+        return "col2d", flat
     return "list", flat
 
 
 def vols_concrete(shape, flat, csel):
     if shape == "scalar":
         return {"t": "scalar", "v": flat[0]}
+    if shape == "col2d":
+        return {"t": "arr2", "v": [[x] for x in flat]}
     if shape == "arr2":
         grid = csel["ids"]
         H, W = len(grid), len(grid[0])
